@@ -676,3 +676,243 @@ Proof.
   destruct (slice_n_ok env e _ _ Hg Hw) as ((S1 & S2 & S3 & S4) & Hin).
   apply stream_wf_intro; assumption.
 Qed.
+
+(* ------------------------------------------------------------------------------------ *)
+(* a decidable (purely syntactic) sufficient condition for the domain: [sgood e = true] can be
+   checked by computation and implies [good env e] for every environment *)
+
+Definition wf_ivlb (i : ivl) : bool :=
+  (NEG_INF <=? fstart i) && (fstart i <? fend i) && (fend i <=? POS_INF) &&
+  (fstart i <? POS_INF) && (NEG_INF <? fend i).
+Definition canon_ivlb (i : ivl) : bool :=
+  negb (oZ_eqb (st i) (Some NEG_INF)) && negb (oZ_eqb (en i) (Some POS_INF)).
+Fixpoint disjoint_sortedb (l : list ivl) : bool :=
+  match l with
+  | [] => true
+  | x :: r => forallb (fun y => fend x <=? fstart y) r && disjoint_sortedb r
+  end.
+
+Lemma wf_ivlb_ok i : wf_ivlb i = true -> wf_ivl i.
+Proof. unfold wf_ivlb, wf_ivl. lia. Qed.
+
+Lemma canon_ivlb_ok i : canon_ivlb i = true -> canon_ivl i.
+Proof.
+  unfold canon_ivlb. intro H. apply andb_true_iff in H as [H1 H2]. split; intro E; rewrite E in *.
+  - rewrite (proj2 (oZ_eqb_eq _ _) eq_refl) in H1. discriminate H1.
+  - rewrite (proj2 (oZ_eqb_eq _ _) eq_refl) in H2. discriminate H2.
+Qed.
+
+Lemma disjoint_sortedb_ok l : disjoint_sortedb l = true -> disjoint_sorted l.
+Proof.
+  induction l as [|x r IH]; [intros _; exact I|]. cbn [disjoint_sortedb disjoint_sorted].
+  intro H. apply andb_true_iff in H as [H1 H2]. split; [|exact (IH H2)].
+  intros y Hy. pose proof (proj1 (forallb_forall _ _) H1 y Hy) as Hxy. cbv beta in Hxy. lia.
+Qed.
+
+Lemma forallb_Forall {A} (p : A -> bool) (P : A -> Prop) l :
+  (forall x, p x = true -> P x) -> forallb p l = true -> Forall P l.
+Proof.
+  intros Hp H. apply Forall_forall. intros x Hx. apply Hp.
+  exact (proj1 (forallb_forall p l) H x Hx).
+Qed.
+
+(* streams that are internally non-overlapping for syntactic reasons *)
+Fixpoint sdj (e : expr) : bool :=
+  match e with
+  | Stored evs => disjoint_sortedb (sl_build evs)
+  | Solid => true
+  | Compl _ => true
+  | Diff s _ => sdj s
+  | Filt s _ => sdj s
+  | Inter es => match es with [] => false | _ => forallb is_mask es && forallb sdj es end
+  | _ => false
+  end.
+
+Definition stored_ok (evs : list ivl) : bool := forallb wf_ivlb evs && forallb canon_ivlb evs.
+
+Fixpoint sgood (e : expr) : bool :=
+  match e with
+  | Stored evs => stored_ok evs
+  | Solid => true
+  | Union es => forallb sgood es
+  | Inter es => match es with [] => false | _ => forallb sgood es && forallb sdj es end
+  | Diff s subs => sgood s && forallb sgood subs && sdj s
+  | Compl s => sgood s
+  | Filt s _ => match s with Stored evs => stored_ok evs | _ => false end
+  | _ => false
+  end.
+
+Lemma stored_ok_ok evs : stored_ok evs = true -> Forall wf_ivl evs /\ Forall canon_ivl evs.
+Proof.
+  unfold stored_ok. intro H. apply andb_true_iff in H as [H1 H2]. split.
+  - exact (forallb_Forall _ _ _ wf_ivlb_ok H1).
+  - exact (forallb_Forall _ _ _ canon_ivlb_ok H2).
+Qed.
+
+Lemma Forall_forallb_mp {A} (p : A -> bool) (P : A -> Prop) l :
+  Forall (fun x => p x = true -> P x) l -> forallb p l = true -> Forall P l.
+Proof.
+  induction 1 as [|x r Hx _ IH]; intro H; [constructor|]. cbn [forallb] in H.
+  apply andb_true_iff in H as [H1 H2]. constructor; auto.
+Qed.
+
+Theorem sgood_sound env e : sgood e = true -> good env e /\ (sdj e = true -> dj env e).
+Proof.
+  induction e as [evs| |es IH|es IH|s subs IHs IHsubs|s IHs|s f IHs|s x y IHs|s g IHs] using expr_ind';
+    cbn [sgood sdj]; intro H; try discriminate H.
+  - destruct (stored_ok_ok evs H) as [Hw Hc]. split; [apply g_stored; assumption|].
+    intro Hd. apply dj_stored, disjoint_sortedb_ok, Hd.
+  - split; [apply g_solid|intros _; apply dj_solid].
+  - split; [|intro Hd; discriminate Hd]. apply g_union.
+    eapply Forall_forallb_mp; [|exact H]. eapply Forall_impl; [|exact IH]. intros s Hs Hsg. exact (proj1 (Hs Hsg)).
+  - destruct es as [|e0 es]; [discriminate H|]. apply andb_true_iff in H as [H1 H2].
+    assert (Hgs : Forall (good env) (e0 :: es)).
+    { eapply Forall_forallb_mp; [|exact H1]. eapply Forall_impl; [|exact IH].
+      intros s Hs Hsg. exact (proj1 (Hs Hsg)). }
+    assert (Hboth : forallb (fun s => sgood s && sdj s) (e0 :: es) = true).
+    { apply forallb_forall. intros s Hs.
+      rewrite (proj1 (forallb_forall _ _) H1 s Hs), (proj1 (forallb_forall _ _) H2 s Hs). reflexivity. }
+    assert (Hdj : Forall (dj env) (e0 :: es)).
+    { eapply Forall_forallb_mp; [|exact Hboth]. eapply Forall_impl; [|exact IH].
+      intros s Hs Hsg. apply andb_true_iff in Hsg as [Hsg Hsd]. exact (proj2 (Hs Hsg) Hsd). }
+    split; [apply g_inter; [discriminate|exact Hgs|exact Hdj]|].
+    intro Hd. apply andb_true_iff in Hd as [Hm _].
+    apply dj_inter_masks; [discriminate|exact Hm|exact Hgs|exact Hdj].
+  - apply andb_true_iff in H as [H Hsd]. apply andb_true_iff in H as [Hsg Hsubs].
+    destruct (IHs Hsg) as [Hgs Hds].
+    assert (Hgsubs : Forall (good env) subs).
+    { eapply Forall_forallb_mp; [|exact Hsubs]. eapply Forall_impl; [|exact IHsubs].
+      intros u Hu Hug. exact (proj1 (Hu Hug)). }
+    split; [apply g_diff; auto|]. intros _. apply dj_diff; auto.
+  - destruct (IHs H) as [Hgs _]. split; [apply g_compl; exact Hgs|]. intros _. apply dj_compl, Hgs.
+  - destruct s; try discriminate H. destruct (stored_ok_ok evs H) as [Hw Hc].
+    split; [apply g_filt; assumption|]. intro Hd. apply dj_filt. exact (proj2 (IHs H) Hd).
+Qed.
+
+Corollary sgood_good env e : sgood e = true -> good env e.
+Proof. intro H. exact (proj1 (sgood_sound env e H)). Qed.
+
+(* ------------------------------------------------------------------------------------ *)
+(* the hypotheses are satisfiable: a concrete nested expression inside the domain *)
+
+Module Examples.
+  Definition ev (s e : Z) (id : N) : ivl := mkI (Some s) (Some e) (Rich id).
+
+  (* A has a nested event and a duplicate, B overlaps A and is unbounded to the right *)
+  Definition A : list ivl := [ev 0 10 1; ev 2 5 2; ev 2 5 2; ev 20 30 3].
+  Definition B : list ivl := [ev 8 12 4; mkI (Some 25) None (Rich 5)].
+  Definition C : list ivl := [ev 3 22 6].
+  (* two internally disjoint timelines, inserted out of order *)
+  Definition D1 : list ivl := [ev 15 18 7; ev 0 4 8; ev 4 9 9].
+  Definition D2 : list ivl := [mkI None (Some 2) (Rich 10); ev 3 16 11].
+
+  (* ~C - (A | B) : the source is a mask, the subtractor has nested and duplicate events *)
+  Definition e1 : expr := Diff (Compl (Stored C)) [Union [Stored A; Stored B]].
+  (* D1 & D2 & ~(A | B) *)
+  Definition e2 : expr := Inter [Stored D1; Stored D2; Compl (Union [Stored A; Stored B])].
+  (* everything together, with a filter and a nested difference as intersection operand *)
+  Definition e3 : expr :=
+    Union [e1; e2; Stored A;
+           Inter [Diff (Stored D1) [Stored A]; Filt (Stored D2) (FCmp PStart Ge (VInt 0))];
+           Filt (Stored A) (FCmp (PDur 1) Gt (VInt 3))].
+
+  Definition env0 : fenv := [].
+
+  Ltac wf_list :=
+    repeat constructor;
+    unfold wf_ivl, canon_ivl, fstart, fend, NEG_INF, POS_INF; cbn [st en ev]; try lia; try discriminate.
+
+  Lemma A_ok : Forall wf_ivl A /\ Forall canon_ivl A. Proof. split; wf_list. Qed.
+  Lemma B_ok : Forall wf_ivl B /\ Forall canon_ivl B. Proof. split; wf_list. Qed.
+  Lemma C_ok : Forall wf_ivl C /\ Forall canon_ivl C. Proof. split; wf_list. Qed.
+  Lemma D1_ok : Forall wf_ivl D1 /\ Forall canon_ivl D1. Proof. split; wf_list. Qed.
+  Lemma D2_ok : Forall wf_ivl D2 /\ Forall canon_ivl D2. Proof. split; wf_list. Qed.
+
+  Ltac dj_store :=
+    apply dj_stored; vm_compute; repeat split;
+    intros y Hy; repeat (destruct Hy as [<-|Hy]; [vm_compute; discriminate|]); destruct Hy.
+
+  Lemma D1_dj : dj env0 (Stored D1). Proof. dj_store. Qed.
+  Lemma D2_dj : dj env0 (Stored D2). Proof. dj_store. Qed.
+
+  Lemma gA : good env0 (Stored A). Proof. apply g_stored; apply A_ok. Qed.
+  Lemma gB : good env0 (Stored B). Proof. apply g_stored; apply B_ok. Qed.
+  Lemma gC : good env0 (Stored C). Proof. apply g_stored; apply C_ok. Qed.
+  Lemma gD1 : good env0 (Stored D1). Proof. apply g_stored; apply D1_ok. Qed.
+  Lemma gD2 : good env0 (Stored D2). Proof. apply g_stored; apply D2_ok. Qed.
+  Lemma gAB : good env0 (Union [Stored A; Stored B]).
+  Proof. apply g_union. constructor; [exact gA|]. constructor; [exact gB|constructor]. Qed.
+
+  Lemma e1_good : good env0 e1.
+  Proof.
+    apply g_diff.
+    - apply g_compl, gC.
+    - constructor; [exact gAB|constructor].
+    - apply dj_compl, gC.
+  Qed.
+
+  Lemma e2_good : good env0 e2.
+  Proof.
+    apply g_inter; [discriminate| |].
+    - constructor; [exact gD1|]. constructor; [exact gD2|]. constructor; [|constructor].
+      apply g_compl, gAB.
+    - constructor; [exact D1_dj|]. constructor; [exact D2_dj|]. constructor; [|constructor].
+      apply dj_compl, gAB.
+  Qed.
+
+  Lemma e3_good : good env0 e3.
+  Proof.
+    apply g_union. constructor; [exact e1_good|]. constructor; [exact e2_good|].
+    constructor; [exact gA|]. constructor; [|constructor; [|constructor]].
+    - apply g_inter; [discriminate| |].
+      + constructor; [|constructor; [|constructor]].
+        * apply g_diff; [exact gD1|constructor; [exact gA|constructor]|exact D1_dj].
+        * apply g_filt; apply D2_ok.
+      + constructor; [|constructor; [|constructor]].
+        * apply dj_diff; [exact gD1|constructor; [exact gA|constructor]|exact D1_dj].
+        * apply dj_filt, D2_dj.
+    - apply g_filt; apply A_ok.
+  Qed.
+
+  (* the same by computation *)
+  Example e3_good' : good env0 e3.
+  Proof. apply sgood_good. vm_compute. reflexivity. Qed.
+
+  (* an intersection of masks is again usable as an operand / source *)
+  Example masks_dj : dj env0 (Inter [Compl (Stored A); Compl (Stored C); Solid]).
+  Proof.
+    apply dj_inter_masks; [discriminate|reflexivity| |].
+    - constructor; [apply g_compl, gA|]. constructor; [apply g_compl, gC|].
+      constructor; [apply g_solid|constructor].
+    - constructor; [apply dj_compl, gA|]. constructor; [apply dj_compl, gC|].
+      constructor; [apply dj_solid|constructor].
+  Qed.
+
+  Lemma win_ok : wf_win' (Some 40) (Some 1).
+  Proof. unfold wf_win', wf_win. cbn. unfold NEG_INF, POS_INF. repeat split; intros z E; injection E as <-; lia. Qed.
+
+  Lemma win_open : wf_win' None None.
+  Proof. unfold wf_win', wf_win. cbn. unfold NEG_INF, POS_INF. repeat split; try discriminate. Qed.
+
+  (* the theorems, instantiated (bounds given in the wrong order on purpose) *)
+  Example e3_C01 t : covers (slice env0 e3 (Some 40) (Some 1) false) t = inw (Some 1) (Some 40) t && den env0 e3 t.
+  Proof. exact (C01_set_algebra env0 e3 (Some 40) (Some 1) e3_good win_ok t). Qed.
+
+  Example e3_C03 : stream_wf (Some 1) (Some 40) false (slice env0 e3 (Some 40) (Some 1) false) = true.
+  Proof. exact (C03_forward_wf env0 e3 (Some 40) (Some 1) e3_good win_ok). Qed.
+
+  Example e3_C03_open : stream_wf None None false (slice env0 e3 None None false) = true.
+  Proof. exact (C03_forward_wf env0 e3 None None e3_good win_open). Qed.
+End Examples.
+
+Print Assumptions fetch_ok.
+Print Assumptions slice_n_ok.
+Print Assumptions C01_set_algebra.
+Print Assumptions C03_forward_wf.
+Print Assumptions dj_stored.
+Print Assumptions dj_compl.
+Print Assumptions dj_diff.
+Print Assumptions dj_filt.
+Print Assumptions dj_inter_masks.
+Print Assumptions sgood_sound.
+Print Assumptions Examples.e3_good.
